@@ -38,22 +38,22 @@ import (
 
 // Config is the option matrix of one history.
 type Config struct {
-	BlockRange     int64 // MinBlockDuration (= head chunk range)
-	MaxBlockFactor int64 // MaxBlockDuration = BlockRange * factor
-	OOOWindow      int64
-	OOOCapMax      int64
-	SamplesPerChunk int
-	XOR2           bool
-	STStorage      bool // requires XOR2
-	HistST         bool
+	BlockRange        int64 // MinBlockDuration (= head chunk range)
+	MaxBlockFactor    int64 // MaxBlockDuration = BlockRange * factor
+	OOOWindow         int64
+	OOOCapMax         int64
+	SamplesPerChunk   int
+	XOR2              bool
+	STStorage         bool // requires XOR2
+	HistST            bool
 	IsolationDisabled bool
-	Overlapping    bool
-	Snapshot       bool
-	UseV2          bool
-	NumSeries      int
-	Base           int64 // start of the logical clock
-	Exemplars      bool
-	WALSegment     int
+	Overlapping       bool
+	Snapshot          bool
+	UseV2             bool
+	NumSeries         int
+	Base              int64 // start of the logical clock
+	Exemplars         bool
+	WALSegment        int
 }
 
 func (c Config) String() string {
@@ -62,12 +62,12 @@ func (c Config) String() string {
 
 func GenConfig(r *rand.Rand) Config {
 	c := Config{
-		BlockRange:     gen.Pick(r, []int64{100, 200, 500, 1000}),
-		MaxBlockFactor: gen.Pick(r, []int64{1, 3, 9}),
+		BlockRange:      gen.Pick(r, []int64{100, 200, 500, 1000}),
+		MaxBlockFactor:  gen.Pick(r, []int64{1, 3, 9}),
 		SamplesPerChunk: gen.Pick(r, []int{4, 8, 20, 120}),
-		OOOCapMax:      gen.Pick(r, []int64{4, 8, 32}),
-		NumSeries:      2 + r.IntN(5),
-		WALSegment:     64 * 1024,
+		OOOCapMax:       gen.Pick(r, []int64{4, 8, 32}),
+		NumSeries:       2 + r.IntN(5),
+		WALSegment:      64 * 1024,
 	}
 	if r.IntN(2) == 0 {
 		c.OOOWindow = c.BlockRange * gen.Pick(r, []int64{1, 2, 5}) / 2
@@ -162,11 +162,11 @@ func (s SampleOp) AllowedKeys() []string {
 }
 
 type Op struct {
-	Kind    string // append | delete | compact | compactHead | compactOOO | compactStale | cleanTombstones | mmap | restart | check
-	Samples []SampleOp
-	Rollback bool
+	Kind       string // append | delete | compact | compactHead | compactOOO | compactStale | cleanTombstones | mmap | restart | check
+	Samples    []SampleOp
+	Rollback   bool
 	Mint, Maxt int64 // delete / compactHead
-	SeriesSel []int  // delete: series indexes (matcher = regex on label s)
+	SeriesSel  []int // delete: series indexes (matcher = regex on label s)
 }
 
 func (o Op) String() string {
@@ -199,7 +199,7 @@ type Gen struct {
 	kinds []string       // per series current sample kind
 	// Weights can be tuned by the property using the generator.
 	WDelete, WCompact, WRestart, WStale int
-	NoStale bool
+	NoStale                             bool
 }
 
 func NewGen(r *rand.Rand, cfg Config) *Gen {
@@ -342,13 +342,13 @@ type Exec struct {
 	// Zombies: samples that were out-of-order at append time (conservatively classified) and
 	// were then covered by a Delete: DESIGN.md §10 item 2 (known finding: Head.Delete ignores
 	// out-of-order data).  They are allowed, not required.
-	Zombies map[string]map[int64]map[string]bool
+	Zombies  map[string]map[int64]map[string]bool
 	maybeOOO map[string]map[int64]bool
 	// Ghosts: samples accepted as (possibly) out-of-order whose timestamp lies in a range deleted
 	// EARLIER for that series: the head keeps the old tombstone and hides the new sample until an
 	// out-of-order compaction (known finding).  Allowed, not required.
-	Ghosts  map[string]map[int64]bool
-	deleted map[string][][2]int64
+	Ghosts        map[string]map[int64]bool
+	deleted       map[string][][2]int64
 	GhostsMissing int
 	// DeletedVals: every sample removed from the model by a Delete.  If no block covers its
 	// timestamp any more (the tombstoned block was dropped by CleanTombstones/compaction) a
@@ -361,7 +361,7 @@ type Exec struct {
 	// record in the WAL), 2 = then the WAL was truncated (the duplicate record can be dropped),
 	// 3 = then another restart: the WBL record may now point to an unknown ref and be skipped
 	// (known finding).  State-3 samples are allowed, not required.
-	orphan map[string]map[int64]int
+	orphan         map[string]map[int64]int
 	OrphansMissing int
 	// oooBlocks remembers every block that carried the from-out-of-order hint (ULID → range).
 	// When such a block is merged with adjacent in-order blocks the merged block has no hint, so
@@ -371,32 +371,77 @@ type Exec struct {
 	oooBlocks map[string][2]int64
 	oooMu     sync.Mutex
 	ctl       *sched.Controller
+	sharedCtl bool
+	// Optional: samples that may or may not be present with one of the given values (in-flight
+	// commit at a crash).  MayMiss: model samples that may be absent (in-flight delete at a crash,
+	// or a narrowly classified known finding set by the caller).
+	Optional           map[string]map[int64]map[string]bool
+	MayMiss            map[string]map[int64]bool
+	OptionalSeen       int
+	MayMissObserved    int
 	LostBehindOOOMerge int
-	Steps   []string
+	Steps              []string
 	// Stats
-	Accepted, Rejected, OOOAccepted int
+	Accepted, Rejected, OOOAccepted                    int
 	Commits, Rollbacks, Deletes, Compactions, Restarts int
-	BlocksSeen int
-	ErrClasses map[string]int
-	ZombiesObserved int
-	LastAppendErrs []error // per sample of the last append op
+	BlocksSeen                                         int
+	ErrClasses                                         map[string]int
+	ZombiesObserved                                    int
+	LastAppendErrs                                     []error // per sample of the last append op
+	LastRec                                            AckRec
+}
+
+// SharedCtl, when set, is used by executors instead of installing their own hook controller
+// (a crash-test child installs one controller for crash points and the executor's observers).
+var SharedCtl *sched.Controller
+
+// NewModelExec creates an executor without opening the DB (model replay in a crash-test parent).
+func NewModelExec(dir string, cfg Config) *Exec {
+	e := newExec(dir, cfg)
+	return e
+}
+
+// OpenDB opens (or re-opens) the real DB of a model executor.
+func (e *Exec) OpenDB() error {
+	if err := e.open(); err != nil {
+		return err
+	}
+	e.installObserver()
+	return nil
+}
+
+func newExec(dir string, cfg Config) *Exec {
+	e := &Exec{Dir: dir, Cfg: cfg, Model: tsdbx.Expect{}, Zombies: map[string]map[int64]map[string]bool{}, maybeOOO: map[string]map[int64]bool{}, ErrClasses: map[string]int{}, undead: map[string]map[int64]map[string]bool{}, orphan: map[string]map[int64]int{}, oooBlocks: map[string][2]int64{}, DeletedVals: map[string]map[int64]map[string]bool{}, Ghosts: map[string]map[int64]bool{}, deleted: map[string][][2]int64{}}
+	e.Series = gen.SimpleSeries(cfg.NumSeries)
+	return e
 }
 
 func NewExec(dir string, cfg Config) (*Exec, error) {
-	e := &Exec{Dir: dir, Cfg: cfg, Model: tsdbx.Expect{}, Zombies: map[string]map[int64]map[string]bool{}, maybeOOO: map[string]map[int64]bool{}, ErrClasses: map[string]int{}, undead: map[string]map[int64]map[string]bool{}, orphan: map[string]map[int64]int{}, oooBlocks: map[string][2]int64{}, DeletedVals: map[string]map[int64]map[string]bool{}, Ghosts: map[string]map[int64]bool{}, deleted: map[string][][2]int64{}}
-	e.Series = gen.SimpleSeries(cfg.NumSeries)
+	e := newExec(dir, cfg)
 	if err := e.open(); err != nil {
 		return nil, err
 	}
-	// Observe the out-of-order blocks at the moment they are loaded (inside DB.Compact they may be
-	// merged away again before Compact returns).
-	e.ctl = sched.Install()
+	e.installObserver()
+	return e, nil
+}
+
+// installObserver watches the out-of-order blocks at the moment they are loaded (inside
+// DB.Compact they may be merged away again before Compact returns).
+func (e *Exec) installObserver() {
+	if e.ctl != nil {
+		return
+	}
+	if SharedCtl != nil {
+		e.ctl = SharedCtl
+		e.sharedCtl = true
+	} else {
+		e.ctl = sched.Install()
+	}
 	e.ctl.OnHit(func(site string, _ *sched.Actor) {
 		if site == "tsdb.compactOOO.afterReload" && e.DB != nil {
 			e.scanOOOBlocks()
 		}
 	})
-	return e, nil
 }
 
 func (e *Exec) scanOOOBlocks() {
@@ -422,7 +467,9 @@ func (e *Exec) open() error {
 
 func (e *Exec) Close() error {
 	if e.ctl != nil {
-		e.ctl.Uninstall()
+		if !e.sharedCtl {
+			e.ctl.Uninstall()
+		}
 		e.ctl = nil
 	}
 	if e.DB == nil {
@@ -483,10 +530,20 @@ func ErrClass(err error) string {
 
 // Apply executes one operation against the real DB and updates the model.  A returned error is
 // an error of an operation that the model expects to succeed (maintenance, commit, reopen).
-func (e *Exec) Apply(op Op) error {
-	e.Steps = append(e.Steps, op.String())
+// AckRec is what the executor observed while applying an operation; together with the operation
+// it determines the model update.  A crash-test child logs it, the parent replays the model.
+type AckRec struct {
+	Accepted      []bool `json:"acc,omitempty"` // per sample of an append: Append returned nil
+	OOODelta      int    `json:"ooo,omitempty"` // growth of out_of_order_samples_appended_total over the commit
+	HeadMaxBefore int64  `json:"hb,omitempty"`
+	HeadMaxAfter  int64  `json:"ha,omitempty"`
+}
+
+// modelPre advances the per-sample state machines that depend on the operation kind only.
+func (e *Exec) modelPre(op Op) {
 	switch op.Kind {
 	case "restart":
+		e.Restarts++
 		for _, m := range e.orphan {
 			for t, st := range m {
 				if st == 0 || st == 2 {
@@ -511,6 +568,25 @@ func (e *Exec) Apply(op Op) error {
 			}
 		}
 	}
+}
+
+// ReplayModel applies only the model effects of an acknowledged operation (no DB involved).
+func (e *Exec) ReplayModel(op Op, rec AckRec) {
+	e.Steps = append(e.Steps, op.String())
+	e.modelPre(op)
+	switch op.Kind {
+	case "append":
+		if !op.Rollback {
+			e.modelAppend(op, rec)
+		}
+	case "delete":
+		e.modelDelete(op)
+	}
+}
+
+func (e *Exec) Apply(op Op) error {
+	e.Steps = append(e.Steps, op.String())
+	e.modelPre(op)
 	ctx := context.Background()
 	switch op.Kind {
 	case "append":
@@ -524,37 +600,7 @@ func (e *Exec) Apply(op Op) error {
 		if err := e.DB.Delete(ctx, op.Mint, op.Maxt, m); err != nil {
 			return fmt.Errorf("Delete: %w", err)
 		}
-		e.Deletes++
-		for _, i := range op.SeriesSel {
-			k := e.Series[i].String()
-			e.deleted[k] = append(e.deleted[k], [2]int64{op.Mint, op.Maxt})
-			for t, vals := range e.Model[k] {
-				if t >= op.Mint && t <= op.Maxt {
-					delete(e.Ghosts[k], t)
-					if e.DeletedVals[k] == nil {
-						e.DeletedVals[k] = map[int64]map[string]bool{}
-					}
-					if e.DeletedVals[k][t] == nil {
-						e.DeletedVals[k][t] = map[string]bool{}
-					}
-					for v := range vals {
-						e.DeletedVals[k][t][v] = true
-					}
-					if e.maybeOOO[k][t] {
-						if e.Zombies[k] == nil {
-							e.Zombies[k] = map[int64]map[string]bool{}
-						}
-						if e.Zombies[k][t] == nil {
-							e.Zombies[k][t] = map[string]bool{}
-						}
-						for v := range vals {
-							e.Zombies[k][t][v] = true
-						}
-					}
-					delete(e.Model[k], t)
-				}
-			}
-		}
+		e.modelDelete(op)
 	case "compact":
 		e.Compactions++
 		if err := e.DB.Compact(ctx); err != nil {
@@ -597,7 +643,6 @@ func (e *Exec) Apply(op Op) error {
 			return fmt.Errorf("CompactHead[%d,%d]: %w", hmin, maxt, err)
 		}
 	case "restart":
-		e.Restarts++
 		if err := e.DB.Close(); err != nil {
 			e.DB = nil
 			return fmt.Errorf("Close: %w", err)
@@ -662,15 +707,28 @@ func (e *Exec) applyAppend(op Op) error {
 	if err := commit(); err != nil {
 		return fmt.Errorf("Commit: %w", err)
 	}
+	rec := AckRec{OOODelta: int(e.Counter("prometheus_tsdb_head_out_of_order_samples_appended_total") - oooBefore), HeadMaxBefore: headMax, HeadMaxAfter: e.DB.Head().MaxTime()}
+	for _, err := range e.LastAppendErrs {
+		rec.Accepted = append(rec.Accepted, err == nil)
+	}
+	e.LastRec = rec
+	e.modelAppend(op, rec)
+	return nil
+}
+
+func (e *Exec) modelAppend(op Op, rec AckRec) {
 	e.Commits++
-	oooDelta := e.Counter("prometheus_tsdb_head_out_of_order_samples_appended_total") - oooBefore
-	e.OOOAccepted += int(oooDelta)
-	for _, s := range accepted {
+	oooDelta, headMax, headMaxAfter := rec.OOODelta, rec.HeadMaxBefore, rec.HeadMaxAfter
+	e.OOOAccepted += oooDelta
+	for i, s := range op.Samples {
+		if i >= len(rec.Accepted) || !rec.Accepted[i] {
+			continue
+		}
 		k := e.Series[s.Series].String()
 		for _, vk := range s.AllowedKeys() {
 			e.Model.Add(k, s.T, vk)
 		}
-		if oooDelta > 0 && (s.T <= headMax || s.T < e.DB.Head().MaxTime()) {
+		if oooDelta > 0 && (s.T <= headMax || s.T < headMaxAfter) {
 			if e.maybeOOO[k] == nil {
 				e.maybeOOO[k] = map[int64]bool{}
 			}
@@ -695,7 +753,40 @@ func (e *Exec) applyAppend(op Op) error {
 			}
 		}
 	}
-	return nil
+}
+
+func (e *Exec) modelDelete(op Op) {
+	e.Deletes++
+	for _, i := range op.SeriesSel {
+		k := e.Series[i].String()
+		e.deleted[k] = append(e.deleted[k], [2]int64{op.Mint, op.Maxt})
+		for t, vals := range e.Model[k] {
+			if t >= op.Mint && t <= op.Maxt {
+				delete(e.Ghosts[k], t)
+				if e.DeletedVals[k] == nil {
+					e.DeletedVals[k] = map[int64]map[string]bool{}
+				}
+				if e.DeletedVals[k][t] == nil {
+					e.DeletedVals[k][t] = map[string]bool{}
+				}
+				for v := range vals {
+					e.DeletedVals[k][t][v] = true
+				}
+				if e.maybeOOO[k][t] {
+					if e.Zombies[k] == nil {
+						e.Zombies[k] = map[int64]map[string]bool{}
+					}
+					if e.Zombies[k][t] == nil {
+						e.Zombies[k][t] = map[string]bool{}
+					}
+					for v := range vals {
+						e.Zombies[k][t][v] = true
+					}
+				}
+				delete(e.Model[k], t)
+			}
+		}
+	}
 }
 
 func (e *Exec) noteAppend(s SampleOp, err error, accepted *[]SampleOp) {
@@ -711,10 +802,32 @@ func (e *Exec) noteAppend(s SampleOp, err error, accepted *[]SampleOp) {
 
 // effective returns the expectation with observed zombies admitted.
 func (e *Exec) effective(d tsdbx.Dump) tsdbx.Expect {
-	if len(e.Zombies) == 0 && len(e.Ghosts) == 0 && len(e.DeletedVals) == 0 && len(e.orphan) == 0 && len(e.oooBlocks) == 0 {
+	if len(e.Zombies) == 0 && len(e.Ghosts) == 0 && len(e.DeletedVals) == 0 && len(e.orphan) == 0 && len(e.oooBlocks) == 0 && len(e.Optional) == 0 && len(e.MayMiss) == 0 {
 		return e.Model
 	}
 	m := e.Model.Clone()
+	if len(e.Optional) > 0 || len(e.MayMiss) > 0 {
+		for k := range e.Optional {
+			for _, smp := range d[k] {
+				if vals := e.Optional[k][smp.T]; vals != nil && vals[smp.ValKey()] && !m[k][smp.T][smp.ValKey()] {
+					m.Add(k, smp.T, smp.ValKey())
+					e.OptionalSeen++
+				}
+			}
+		}
+		for k, ts := range e.MayMiss {
+			obs := map[int64]bool{}
+			for _, smp := range d[k] {
+				obs[smp.T] = true
+			}
+			for t := range ts {
+				if !obs[t] && m[k][t] != nil {
+					delete(m[k], t)
+					e.MayMissObserved++
+				}
+			}
+		}
+	}
 	if e.Restarts > 0 && e.DB != nil && len(e.oooBlocks) > 0 {
 		// ranges of out-of-order source blocks that were merged into a block without the hint
 		var cut [][2]int64
@@ -772,7 +885,11 @@ func (e *Exec) effective(d tsdbx.Dump) tsdbx.Expect {
 		blocks := e.DB.Blocks()
 		covered := func(t int64) bool {
 			for _, b := range blocks {
-				if b.Meta().MinTime <= t && t < b.Meta().MaxTime {
+				bm := b.Meta()
+				if bm.Compaction.FromOutOfOrder() || bm.Compaction.FromStaleSeries() || bm.Compaction.FromSelectedSeries() {
+					continue // such blocks do not raise the WAL replay cutoff
+				}
+				if bm.MinTime <= t && t < bm.MaxTime {
 					return true
 				}
 			}
@@ -975,4 +1092,43 @@ func DiskSummary(dir string) string {
 		}
 	}
 	return sb.String()
+}
+
+// AllowOptional marks (series,t) as possibly present with one of vals.
+func (e *Exec) AllowOptional(series string, t int64, vals ...string) {
+	if e.Optional == nil {
+		e.Optional = map[string]map[int64]map[string]bool{}
+	}
+	if e.Optional[series] == nil {
+		e.Optional[series] = map[int64]map[string]bool{}
+	}
+	if e.Optional[series][t] == nil {
+		e.Optional[series][t] = map[string]bool{}
+	}
+	for _, v := range vals {
+		e.Optional[series][t][v] = true
+	}
+}
+
+// AllowMissing marks a model sample as possibly absent.
+func (e *Exec) AllowMissing(series string, t int64) {
+	if e.MayMiss == nil {
+		e.MayMiss = map[string]map[int64]bool{}
+	}
+	if e.MayMiss[series] == nil {
+		e.MayMiss[series] = map[int64]bool{}
+	}
+	e.MayMiss[series][t] = true
+}
+
+// WBLOnlySamples lists the out-of-order samples that, as far as the model knows, still live
+// only in the WBL / out-of-order head (not yet out-of-order compacted).
+func (e *Exec) WBLOnlySamples() map[string][]int64 {
+	out := map[string][]int64{}
+	for k, m := range e.orphan {
+		for t := range m {
+			out[k] = append(out[k], t)
+		}
+	}
+	return out
 }
